@@ -253,14 +253,21 @@ def run(tier, seed):
     # stage 1: schedules
     scheds, g = vlib.gen_schedules(PID, FAMILY, "DutyDBGen", "DutyDBGen.cfg", num=300 if thorough else 40, depth=80, seed=seed,
                                    limit=4000 if thorough else 500)
-    rnd = random_schedules(seed, 3000 if thorough else 500, thorough, 12 if thorough else 2)
-    conc = concurrent_schedules(seed, 1500 if thorough else 120, thorough)
+    rnd = random_schedules(seed, 3000 if thorough else 400, thorough, 12 if thorough else 2)
+    conc = concurrent_schedules(seed, 1000 if thorough else 80, thorough)
     # stage 2+3
     vlib.conformance(o, FAMILY, TRACE, CFG, "c06", [PROBE], tag="probe", dev_cfgs=DEV)
     probe_hit = any(k == FINDING for k, _ in o.known)
     vlib.conformance(o, FAMILY, TRACE, CFG, "c06", scheds, tag="tlcgen", dev_cfgs=DEV)
     vlib.conformance(o, FAMILY, TRACE, CFG, "c06", rnd, tag="random", dev_cfgs=DEV)
-    vlib.conformance(o, FAMILY, TRACE, CFG, "c06", conc, tag="conc", dev_cfgs=DEV, chunk=60)
+    try:
+        vlib.conformance(o, FAMILY, TRACE, CFG, "c06", conc, tag="conc", dev_cfgs=DEV, chunk=60, env={"C06_REPEAT": "2"})
+    except vlib.Infra as e:
+        # a rejected concurrent history depends on the interleaving and may not come back on re-execution; that is only
+        # tolerable when the deterministic tiers have already produced a reproduced violation
+        if not o.violations:
+            raise
+        o.notes.append("concurrent tier: " + str(e)[:300])
     if not probe_hit:
         note = ("probe for known finding %s no longer reproduces (storeAggAttestationUnsafe no longer replaces an aggregate "
                 "with equal data root): remove the finding and the deviation cfg" % FINDING)
